@@ -180,10 +180,12 @@ example : (decision ⟨false, false, true, true, true, true, false, true, false,
   takes the own finalizer off an object on which, after the step, a matching mandatory deletion
   handler is unfinished or a matching daemon is alive.
 
-  Proved: the same under `Guard` on every step of the run, which constrains ONE kind of step only:
-  when a removal is queued, no foreign write lands between the decision and the cycle's own merge
-  patch (F5b's shape). Everything else is unconstrained: any number of genuine or injected HTTP 422
-  on any JSON patch, at any moment (since repair 1c8f3dd nothing of a rejected finalizer edit is
+  Proved: the same under `Guard` on every step of the run, which constrains ONE kind of step only and is
+  exactly the gap: when the cycle's own merge patch is sent with a removal queued, nothing requires the
+  finalizer at that moment (F5b's shape: a foreign write since the decision made a handler match again, and
+  the merge patch's response hides it from the `test`). Everything else is unconstrained: harmless foreign
+  writes in that window, foreign writes between the merge patch and the JSON patch (→ 422), any number of
+  genuine or injected HTTP 422 on any JSON patch (since repair 1c8f3dd nothing of a rejected finalizer edit is
   carried: `conflict_carries_nothing`, `cycle_decides_anew`). The exclusion is necessary:
   `stale_release_via_merge_witness`.
 -/
@@ -568,14 +570,14 @@ theorem injected_422_loses_wakeup (own : String) :
     ∃ s, LReach own s ∧ Waiting own s.base ∧ Settled s.base ∧
       ∀ l, LLabel.isOperator l = true → lstep own s l = none := by
   let s0 : LState := { base := w0, queue := [snap w0], sleeping := false, cycDelays := false, cycMerge := false,
-                       cycChanges := false, cycViewRv := 0 }
+                       cycChanges := false, cycViewRv := 0, cycUserFns := false }
   let v2 : Snap := ⟨2, true, [own], true, false⟩
   let ls : List LLabel := [.base (.decide quiet ⟨0, false, [], true, false⟩), .base (.jsonPatch false), .base .mark,
     .base .handlerFinishes, .base (.decide quiet ⟨1, false, [own], true, false⟩), .base (.jsonPatch true),
     .base (.decide quiet v2), .base (.jsonPatch true)]
   have hrun : lrun own s0 ls = some
       { base := { w0 with marked := true, fins := [own], rv := 2, delDone := true },
-        queue := [], sleeping := false, cycDelays := false, cycMerge := false, cycChanges := false, cycViewRv := 2 } := by
+        queue := [], sleeping := false, cycDelays := false, cycMerge := false, cycChanges := false, cycViewRv := 2, cycUserFns := false } := by
     simp [ls, s0, v2, lrun, lstep, enqueue, step, stepDecide, stepJson, stepMark, snap, w0, quiet, decision, inputs,
       Decision.fns, mustBlockG, addG, removeG, earlyG, releaseG, applyFns, Fn.apply, blockDeletion, allowDeletion, allowLoop,
       sleepsAfter, changedUnwritten, carry, ownFns]
@@ -599,6 +601,47 @@ theorem injected_422_loses_wakeup (own : String) :
     | base bl =>
       cases bl <;> simp [LLabel.isOperator] at hl <;> simp [lstep, step, stepMerge, stepJson, w0]
 
+/-- The second conjunct of `LGuard` is necessary (open finding F8 = C03-N1 in the model): a daemon is still
+exiting when the deletion is requested; the cycle returns delays; a handler has put a transformation fn into
+the patch that has nothing to change, so the patch is non-empty but NO request is sent — `apply` takes the
+missing version for a change and skips the sleep; the daemon exits; the object waits, settled, with no enabled
+step of the operator. -/
+theorem noop_fn_loses_wakeup (own : String) :
+    ∃ s, LReach own s ∧ Waiting own s.base ∧ Settled s.base ∧
+      ∀ l, LLabel.isOperator l = true → lstep own s l = none := by
+  let b0 : State := { w0 with matchDel := false, matchDmn := true }
+  let s0 : LState := { base := b0, queue := [snap b0], sleeping := false, cycDelays := false, cycMerge := false,
+                       cycChanges := false, cycViewRv := 0, cycUserFns := false }
+  let uf : Env := { quiet with userFns := true }
+  let ls : List LLabel := [.base (.decide quiet ⟨0, false, [], false, true⟩), .base (.jsonPatch false), .base .mark,
+    .base (.decide uf ⟨1, false, [own], false, true⟩), .base (.jsonPatch false),
+    .base (.decide uf ⟨2, true, [own], false, true⟩), .base (.jsonPatch false), .base (.daemonExits false)]
+  have hrun : lrun own s0 ls = some
+      { base := { b0 with marked := true, fins := [own], rv := 2, dmnLive := false },
+        queue := [], sleeping := false, cycDelays := true, cycMerge := false, cycChanges := false, cycViewRv := 2,
+        cycUserFns := true } := by
+    simp [ls, s0, b0, uf, lrun, lstep, enqueue, step, stepDecide, stepJson, stepMark, snap, w0, quiet, decision, inputs,
+      Decision.fns, mustBlockG, addG, removeG, earlyG, releaseG, applyFns, Fn.apply, blockDeletion, sleepsAfter, changedUnwritten]
+  have hreach : ∀ (ls : List LLabel) (s s' : LState), LReach own s → lrun own s ls = some s' → LReach own s' := by
+    intro ls
+    induction ls with
+    | nil => intro s s' h hr; simp [lrun] at hr; subst hr; exact h
+    | cons l ls ih =>
+      intro s s' h hr
+      simp only [lrun] at hr
+      cases hst : lstep own s l with
+      | none => simp [hst] at hr
+      | some s1 => simp [hst] at hr; exact ih s1 s' (LReach.step h hst) hr
+  refine ⟨_, hreach ls s0 _ (LReach.init ?_) hrun, ?_, ?_, ?_⟩
+  · exact ⟨⟨rfl, rfl, rfl, rfl, rfl, rfl, rfl⟩, rfl, rfl, rfl, rfl, rfl⟩
+  · exact ⟨rfl, rfl, by simp⟩
+  · exact ⟨fun h => (by cases h), rfl⟩
+  · intro l hl
+    cases l with
+    | touch => simp [lstep]
+    | base bl =>
+      cases bl <;> simp [LLabel.isOperator] at hl <;> simp [lstep, step, stepMerge, stepJson, b0, w0]
+
 /-- The history of the former finding F7 (repaired in 7224f57), now live: a daemon is still exiting when the
 deletion is requested; the cycles return delays and their patch has dict content that changes nothing. The
 sleep is no longer skipped: the worker sleeps and will touch the object — and after the daemon's exit the touch
@@ -606,7 +649,7 @@ plus one quiet cycle release it (before the repair this state had `sleeping = fa
 example (own : String) :
     let b0 : State := { w0 with matchDel := false, matchDmn := true }
     let s0 : LState := { base := b0, queue := [snap b0], sleeping := false, cycDelays := false, cycMerge := false,
-                         cycChanges := false, cycViewRv := 0 }
+                         cycChanges := false, cycViewRv := 0, cycUserFns := false }
     let noop : Env := { quiet with merge := true }
     lrun own s0 [.base (.decide quiet ⟨0, false, [], false, true⟩), .base (.jsonPatch false), .base .mark,
       .base (.decide noop ⟨1, false, [own], false, true⟩), .base .mergePatch, .base (.jsonPatch false),
@@ -615,7 +658,7 @@ example (own : String) :
       .touch, .base (.decide quiet ⟨3, true, [own], false, true⟩), .base (.jsonPatch false)] =
     some { base := { b0 with gone := true, marked := true, fins := [], rv := 4, dmnLive := false },
            queue := [⟨4, true, [], false, true⟩], sleeping := false, cycDelays := false, cycMerge := false,
-           cycChanges := false, cycViewRv := 3 } := by
+           cycChanges := false, cycViewRv := 3, cycUserFns := false } := by
   simp [lrun, lstep, enqueue, step, stepDecide, stepJson, stepMerge, stepMark, snap, w0, quiet, decision, inputs,
     Decision.fns, mustBlockG, addG, removeG, earlyG, releaseG, applyFns, Fn.apply, blockDeletion, allowDeletion, allowLoop,
     sleepsAfter, changedUnwritten]
@@ -652,6 +695,25 @@ example : ∃ s s', ReachG "k" s ∧ step "k" s (.decide quiet ⟨1, false, ["k"
     (s' := { w0 with fins := ["k"], rv := 1 }) (by decide)
   exact ReachG.step (l := .mark) s2 trivial (by decide)
 
+/-- The guard is the gap, not more: a HARMLESS foreign write between the removal decision and the cycle's merge
+patch (the object stays unrequired) is a guarded run, and the removal then goes through. -/
+example : ∃ s, ReachG "k" s ∧ s.gone = true ∧ s.rv = 5 := by
+  let b : State := { w0 with matchDel := false }
+  have s0 : ReachG "k" { b with fins := ["k"], rv := 1 } := ReachG.init (by simp [Init, b, w0])
+  have s1 := ReachG.step (l := .mark) s0 trivial (s' := { b with fins := ["k"], rv := 2, marked := true }) (by decide)
+  have s2 := ReachG.step (l := .decide { quiet with merge := true, mergeChanges := true } ⟨2, true, ["k"], false, false⟩) s1 trivial
+    (s' := { b with fins := ["k"], rv := 2, marked := true,
+                    pending := some ⟨[Fn.allow, Fn.allow], 2, ["k"], true, true⟩ }) (by decide)
+  have s3 := ReachG.step (l := .write false false) s2 trivial
+    (s' := { b with fins := ["k"], rv := 3, marked := true,
+                    pending := some ⟨[Fn.allow, Fn.allow], 2, ["k"], true, true⟩ }) (by decide)
+  have s4 := ReachG.step (l := .mergePatch) s3 (by intro p hp _; simp at hp; subst hp; decide)
+    (s' := { b with fins := ["k"], rv := 4, marked := true,
+                    pending := some ⟨[Fn.allow, Fn.allow], 4, ["k"], false, true⟩ }) (by decide)
+  have s5 := ReachG.step (l := .jsonPatch false) s4 trivial
+    (s' := { b with fins := [], rv := 5, marked := true, gone := true }) (by decide)
+  exact ⟨_, s5, rfl, rfl⟩
+
 /-- The monitor bit does become true (so `never_early_inv_partial` is not vacuous). -/
 example : ∃ s, ReachGH "k" s true := by
   have s0 : ReachGH "k" w0 false := ReachGH.init (by simp [Init, w0])
@@ -678,9 +740,9 @@ the wake-up layer: finalizer added, deletion requested, the handler finished —
 the first one (the operator's own write) still shows the object unmarked, so it is taken first. -/
 example : ∃ s, LReachG "k" s ∧ Waiting "k" s.base ∧ Settled s.base ∧ s.queue.length = 1 ∧ ∀ v ∈ s.queue, v.marked = true := by
   let mk (b : State) (q : List Snap) (vr : Nat) : LState :=
-    { base := b, queue := q, sleeping := false, cycDelays := false, cycMerge := false, cycChanges := false, cycViewRv := vr }
+    { base := b, queue := q, sleeping := false, cycDelays := false, cycMerge := false, cycChanges := false, cycViewRv := vr, cycUserFns := false }
   have s0 : LReachG "k" (mk w0 [snap w0] 0) := LReachG.init ⟨⟨rfl, rfl, rfl, rfl, rfl, rfl, rfl⟩, rfl, rfl, rfl, rfl, rfl⟩
-  have s1 := LReachG.step (l := .base (.decide quiet ⟨0, false, [], true, false⟩)) s0 trivial
+  have s1 := LReachG.step (l := .base (.decide quiet ⟨0, false, [], true, false⟩)) s0 rfl
     (s' := mk { w0 with pending := some ⟨[Fn.block], 0, [], false, false⟩ } [] 0) (by decide)
   have s2 := LReachG.step (l := .base (.jsonPatch false)) s1 rfl
     (s' := mk { w0 with fins := ["k"], rv := 1 } [⟨1, false, ["k"], true, false⟩] 0) (by decide)
@@ -690,7 +752,7 @@ example : ∃ s, LReachG "k" s ∧ Waiting "k" s.base ∧ Settled s.base ∧ s.q
     (s' := mk { w0 with fins := ["k"], rv := 2, marked := true, delDone := true }
               [⟨1, false, ["k"], true, false⟩, ⟨2, true, ["k"], true, false⟩] 0) (by decide)
   -- the stale, unmarked event is taken: nothing to do on it (the finalizer is there, the handler matches)
-  have s5 := LReachG.step (l := .base (.decide quiet ⟨1, false, ["k"], true, false⟩)) s4 trivial
+  have s5 := LReachG.step (l := .base (.decide quiet ⟨1, false, ["k"], true, false⟩)) s4 rfl
     (s' := mk { w0 with fins := ["k"], rv := 2, marked := true, delDone := true, pending := some ⟨[], 1, ["k"], false, false⟩ }
               [⟨2, true, ["k"], true, false⟩] 1) (by decide)
   have s6 := LReachG.step (l := .base (.jsonPatch false)) s5 rfl
